@@ -43,7 +43,7 @@ Imms == {0, 1, -1, 127, 128, 4660, 305419896, -559038737}
 SmallImms == {1, 4, 8, 127}
 AluOps == {"add", "sub", "xor", "and", "or", "cmp", "test", "adc"}
 MemForms == {"mov_mr", "mov_rm", "mov_mi", "alu_mr", "alu_rm", "alu_mi", "push_m", "pop_m", "un_m", "movx", "xchg", "lea", "setcc_m", "ptr_load"}
-RegForms == {"mov_ri", "mov_rr", "alu_rr", "alu_ri", "push_r", "push_i", "pop_r", "frame", "flag", "str", "rep_setup", "rep", "setcc_r", "cmov_rr", "const_setcc"}
+RegForms == {"mov_ri", "mov_rr", "alu_rr", "alu_ri", "push_r", "push_i", "pop_r", "frame", "flag", "str", "rep_setup", "rep", "setcc_r", "cmov_rr", "const_setcc", "rotc"}
 Hi8 == [eax |-> "ah", ebx |-> "bh", ecx |-> "ch", edx |-> "dh"]
 CondNames == {"z", "l", "a", "b", "ns"}
 
@@ -127,7 +127,12 @@ Complete(f, m) ==
      [] f = "pop_r" -> IF "esp" \in ptr THEN {Eff(Ins("pop", R(r, 32), None), Kill(r), dfk, EcxAfter(r)) : r \in Gpr32 \cup {"ebp"}} ELSE {}
      [] f = "frame" -> {Eff(Ins("mov", R("ebp", 32), R("esp", 32)), IF "esp" \in ptr THEN ptr \cup {"ebp"} ELSE Kill("ebp"), dfk, ecxn)}
                        \cup (IF "ebp" \in ptr THEN {Eff(Ins("mov", R("esp", 32), R("ebp", 32)), ptr \cup {"esp"}, dfk, ecxn)} ELSE {})
-     [] f = "flag" -> {Eff(Ins("cld", None, None), ptr, TRUE, ecxn), Eff(Ins("std", None, None), ptr, TRUE, ecxn)}
+     [] f = "flag" -> {Eff(Ins("cld", None, None), ptr, TRUE, ecxn), Eff(Ins("std", None, None), ptr, TRUE, ecxn),
+                       Eff(Ins("stc", None, None), ptr, dfk, ecxn), Eff(Ins("clc", None, None), ptr, dfk, ecxn)}
+     \* rotate through carry: with a constant register and a constant carry (stc / clc: the machine keeps constant flags as
+     \* 32-bit constants) the evaluator computes on operands of different sizes
+     [] f = "rotc" -> {Eff(Ins(o, SubReg(r, w), I(c)), Kill(r), dfk, EcxAfter(r)) : o \in {"rcl", "rcr"}, r \in Data32, w \in {8, 16, 32}, c \in {1, 3}}
+                       \cup {Eff2(Ins("stc", None, None), Ins(o, SubReg(r, w), I(1)), Kill(r), dfk, EcxAfter(r)) : o \in {"rcl", "rcr"}, r \in Data32, w \in {8, 16}}
      [] f = "str" -> {Eff(Ins(mn, None, None), StrPtr(mn), dfk, ecxn) : mn \in {s \in StrOps : dfk /\ StrNeeds(s) \subseteq ptr}}
      [] f = "rep_setup" -> {Eff(Ins("mov", R("ecx", 32), I(n)), Kill("ecx"), dfk, n) : n \in 0..4}
      [] f = "rep" ->       \* rep with the count known; otherwise the pair  mov ecx, n ; rep ...
